@@ -578,7 +578,7 @@ def run(ctx):
     with Instr() as ins:
         zipm = ins.zipmodel
 
-        def run_decompress(s, desc, coq=True, contract_ms=()):
+        def run_decompress(s, desc, coq=True, contract_ms=(), contract_coq=None):
             """real decompress on s + direct oracle + correspondence case"""
             ins.reset()
             r = call(zipm.decompress, s)
@@ -615,7 +615,7 @@ def run(ctx):
                     add("CDecomp %s %s %s" % (spec_term(ssp), ev_t, ex_t), ("decompress", desc))
             wb = 15 if wrapped else -15
             for m in contract_ms:
-                contract_case(wb, s, m, ref, spf, desc, in_coq=coq)
+                contract_case(wb, s, m, ref, spf, desc, in_coq=coq if contract_coq is None else contract_coq)
             return r, ref
 
         def run_compress(p, desc, coq=True):
@@ -673,13 +673,13 @@ def run(ctx):
                     add("CComp %s %s %s" % (spec_term(psp), spec_term(zsp), spec_term(esp)), ("compress", desc))
             return c
 
-        def roundtrip(desc, coq=True, contract_ms=()):
+        def roundtrip(desc, coq=True, contract_ms=(), contract_coq=None, comp_coq=None):
             p = data_of(desc)
-            c = run_compress(p, desc, coq)
+            c = run_compress(p, desc, coq if comp_coq is None else comp_coq)
             if c is None:
                 return
             sdesc = {"data": desc, "how": "impl"}
-            r, ref = run_decompress(c, sdesc, coq, contract_ms)
+            r, ref = run_decompress(c, sdesc, coq, contract_ms, contract_coq)
             if len(p) <= LIMIT:
                 if r[0] != "ok" or bytes(r[1]) != p:
                     ctx.violation({"kind": "roundtrip"},
@@ -705,20 +705,23 @@ def run(ctx):
         pat = bytes(rng.randrange(256) for _ in range(rng.choice([3, 5, 7, 11, 13])))
         cbyte = rng.choice([0, 104, 255, rng.randrange(256)])
         lengths = list(range(255990, 256301))
+        key_lengths = {LIMIT - 1, LIMIT, LIMIT + 1, LIMIT + 2, LIMIT + 257, LIMIT + 258, LIMIT + 259}
         lcg_lengths = set(range(255995, 256006)) | set(range(256250, 256265)) | {255990, 256300}
         if ctx.quick:
             lcg_lengths |= set(rng.sample(lengths, 24))
+            lcg_coq = key_lengths | set(rng.sample(sorted(lcg_lengths), 5))
         else:
             lcg_lengths = set(lengths)
-        ms_boundary = (LIMIT + 1,)
+            lcg_coq = set(n for n in lengths if n % 4 == 0) | key_lengths
         for n in lengths:
-            full = (n % 10 == 0) or abs(n - LIMIT) <= 3 or 256255 <= n <= 256262
-            ms = (LIMIT + 1, LIMIT, n, n + 1, max(n - 1, 1)) if (full and not ctx.quick) or abs(n - LIMIT) <= 2 else ms_boundary
-            roundtrip({"cls": "const", "c": cbyte, "n": n}, contract_ms=ms)
-            roundtrip({"cls": "periodic", "pat": pat.hex(), "n": n}, contract_ms=ms_boundary)
+            near = abs(n - LIMIT) <= 3 or 256255 <= n <= 256260
+            ms = (LIMIT + 1, LIMIT, n, n + 1, max(n - 1, 1)) if near or (n % 10 == 0 and not ctx.quick) else (LIMIT + 1,)
+            roundtrip({"cls": "const", "c": cbyte, "n": n}, contract_ms=ms,
+                      contract_coq=near or n % 10 == 0 or not ctx.quick, comp_coq=near or n % 5 == 0 or not ctx.quick)
+            roundtrip({"cls": "periodic", "pat": pat.hex(), "n": n}, contract_ms=(LIMIT + 1,),
+                      contract_coq=near or n % 10 == 5 or not ctx.quick, comp_coq=near or n % 5 == 1 or not ctx.quick)
             if n in lcg_lengths:
-                roundtrip({"cls": "lcg", "n": n}, contract_ms=ms_boundary if not ctx.quick or n % 3 == 0 else ())
-
+                roundtrip({"cls": "lcg", "n": n}, coq=n in lcg_coq, contract_ms=(LIMIT + 1,), contract_coq=n in key_lengths)
         tick("B")
         # ---- C. small and assorted lengths, all classes
         small = [0, 1, 2, 3, 5, 6, 7, 10, 100, 255, 256, 257, 258, 259, 1000, 32767, 32768, 32769, 65535, 65536, 65537,
@@ -768,7 +771,7 @@ def run(ctx):
         for (lv, wb, st) in combos:
             ns = f_lengths if not ctx.quick else rng.sample(f_lengths, 4) + [LIMIT, LIMIT + 1]
             for n in ns:
-                c = rng.choice(["const", "periodic", "lcg"])
+                c = rng.choice(["const", "periodic", "const", "periodic", "const", "periodic", "lcg"])
                 d = {"cls": c, "n": n}
                 if c == "const":
                     d["c"] = cbyte
@@ -782,7 +785,7 @@ def run(ctx):
         # hand-assembled stored blocks (zero, random and maximal sizes; wrapped or raw)
         for _ in range(ctx.scale(40, 500)):
             n = rng.choice([0, 1, 5, 65535, 65536, 70000, LIMIT - 1, LIMIT, LIMIT + 1, LIMIT + 258, 300000])
-            c = rng.choice(["const", "periodic", "lcg"])
+            c = rng.choice(["const", "periodic", "const", "periodic", "lcg"])
             d = {"cls": c, "n": n}
             if c == "const":
                 d["c"] = cbyte
@@ -794,7 +797,7 @@ def run(ctx):
         # malformed authenticated streams: truncated, corrupted, trailing octets
         for _ in range(ctx.scale(60, 1200)):
             n = rng.choice([10, 300, 5120, 70000, LIMIT, LIMIT + 1, LIMIT + 300, 300000])
-            c = rng.choice(["const", "periodic", "lcg"])
+            c = rng.choice(["const", "periodic", "const", "periodic", "lcg"])
             d = {"cls": c, "n": n}
             if c == "const":
                 d["c"] = cbyte
@@ -946,7 +949,7 @@ def run(ctx):
             """decrypt with instrumentation; direct oracle + CTail case"""
             kw = {"algorithms": allowed} if allowed else {}
             r, logx = jwe_decrypt(token, key, **kw)
-            bump("jwe_" + label)
+            bump("jwe_" + label.split("/", 2)[2])
             ctx.note_case(("jwe", label, json.dumps(desc, sort_keys=True)[:300]))
             replay = {"fn": "jwe", "desc": desc, "label": label}
             # ---- position: decompress only on the output of a successful enc.decrypt
@@ -1074,6 +1077,9 @@ def run(ctx):
     if cases:
         ctx.sample({"coq_case": cases[0][:200]})
 
+    if os.environ.get("C17_DUMP"):            # debugging aid: write the generated cases
+        with open(os.environ["C17_DUMP"], "w") as f:
+            json.dump({"cases": cases, "meta": [repr(m)[:300] for m in meta]}, f)
     # ---- correspondence: model (vm_compute) vs recorded implementation behaviour
     soft, hard = resource.getrlimit(resource.RLIMIT_STACK)
     try:
